@@ -529,6 +529,10 @@ func runScenario(t *tape.Tape, cfg sim.Config, listen bool) (res sim.Result) {
 	var hostFailureAsync atomic.Value
 	blockerNotified, callReturned := make(chan struct{}), make(chan struct{})
 	var blockerTimedOut atomic.Bool
+	abortedInst := cause == causeRuntimeClose && t.Chance(1, 2)
+	if abortedInst {
+		res.Stat("probe.unrelated_instantiation_stopped_by_its_deadline_before_the_runtime_close", 1)
+	}
 	fire := func() {
 		switch cause {
 		case causeCancel:
@@ -540,6 +544,19 @@ func runScenario(t *tape.Tape, cfg sim.Config, listen bool) (res sim.Result) {
 		case causeClose:
 			go mod.CloseWithExitCode(bg, code)
 		case causeRuntimeClose:
+			if abortedInst {
+				// first an UNRELATED instantiation on this runtime is stopped by its own deadline while its
+				// start-section function runs (an instance that was never registered is closed)
+				sm := &wasmb.Module{}
+				st := sm.AddFunc(nil, nil, nil, (&wasmb.Code{}).Loop(wasmb.BlockVoid).Br(0).End().B, "")
+				sm.Start = &st
+				dctx, dcancel := context.WithTimeout(bg, 3*time.Millisecond)
+				_, ierr := rt.InstantiateWithConfig(dctx, sm.Encode(), wazero.NewModuleConfig().WithName(""))
+				dcancel()
+				if ierr == nil {
+					hostFailureAsync.Store("an instantiation whose start function spins returned without an error")
+				}
+			}
 			go rt.Close(bg)
 		case causeCancelUnderBlockedRuntimeClose:
 			go rt.Close(bg)
